@@ -181,6 +181,33 @@ Theorem C09_F19_refuted :
 Proof. exact F19_refuted. Qed.
 Print Assumptions C09_F19_refuted.
 
+(** ** Transparency holds on unwind paths too *)
+(** [run_case_u tb o c ops k]: ops [k..] run inside a Drop impl while a panic propagates (caught at the top); [gen_order] is the
+    branch order of the crate's `try_lock!` as found in the source (the lock first, `panicking()` only for a poisoned lock).
+    With that order a workload means the same whether or not part of it runs during unwinding, so every theorem of this file
+    applies to such workloads as well (spelled out for the wrapper theorem). *)
+Theorem C09_unwinding_changes_nothing : forall c ops k, run_case_u gen_tables gen_order c ops k = run_case gen_tables c ops.
+Proof. exact unwinding_changes_nothing. Qed.
+Print Assumptions C09_unwinding_changes_nothing.
+
+Theorem C09_wrappers_transparent_while_unwinding : forall K ps x ops k,
+  (existsb uses_id ps = true -> is_none (sub_obj gen_tables x) = false) ->
+  run_case_u gen_tables gen_order (cplug K (wrap_nest ps x)) ops k = run_case_u gen_tables gen_order (cplug K x) ops k.
+Proof. exact wrappers_transparent_while_unwinding. Qed.
+Print Assumptions C09_wrappers_transparent_while_unwinding.
+
+(** Why the order matters: with `panicking()` first the reload-wrapped L2 misses the `exit` delivered during unwinding. *)
+Theorem C09_panicking_first_refuted :
+  let c := CLayered (SLeaf 3 unhinted) (CLayered (SWrap SwReload (SLeaf 2 unhinted)) (CLayered (SLeaf 1 unhinted) (CLeaf 0 unhinted))) in
+  let c0 := CLayered (SLeaf 3 unhinted) (CLayered (SLeaf 2 unhinted) (CLayered (SLeaf 1 unhinted) (CLeaf 0 unhinted))) in
+  run_case_u gen_tables PanickingFirst c0 [OEnter 1; OExit 1] 1 = run_case gen_tables c0 [OEnter 1; OExit 1] /\
+  run_case_u gen_tables PanickingFirst c [OEnter 1; OExit 1] 1 <> run_case gen_tables c0 [OEnter 1; OExit 1] /\
+  snd (run_case_u gen_tables PanickingFirst c [OEnter 1; OExit 1] 1) =
+    [([(0, enter, (0,1,0)); (1, on_enter, (0,1,0)); (2, on_enter, (0,1,0)); (3, on_enter, (0,1,0))], RUnit);
+     ([(0, exit, (0,1,0)); (1, on_exit, (0,1,0)); (3, on_exit, (0,1,0))], RUnit)].
+Proof. exact panicking_first_refuted. Qed.
+Print Assumptions C09_panicking_first_refuted.
+
 (** ** The reload wrapper while another thread is inside `Handle::modify` / `Handle::reload` *)
 (** The reload cell as an RwLock (Forwarding/ReloadConc.v): notifier threads read-lock around each callback, modifier threads
     write-lock around their closure; micro-steps acquire / call / release; [gen_mode] = how the callbacks acquire the lock in
